@@ -478,6 +478,9 @@ def check(ctx):
                    "SecureField.%s no longer obtains its key file from the configuration it was called for" % mname)
         for x in uses:
             okk = isinstance(x.value, ast.Name) and x.value.id == cparam
+            if not okk and isinstance(x.value, ast.Name):
+                srcs = value_sources(f, x.value, None)        # owner = cfg
+                okk = bool(srcs) and all(k == "param" and pl == cparam for k, pl in srcs)
             ctx.ob("keyfile.of-given-config", f, x, okk, "uses the key file of the configuration it was called for" if okk else
                    "uses the key file of %s, not of the configuration being saved/loaded" % ast.unparse(x.value), node=x)
 
